@@ -8,7 +8,7 @@ CONSTANTS
   MaxCrash = 0
   EnableBranch = TRUE
   SidecarNextSeq = TRUE
-  LineageLocked = FALSE
+  LineageLocked = TRUE
   SecondInput = TRUE
   Tasks = {}
   TaskGuarded = TRUE
